@@ -21,6 +21,7 @@ Ev == Traces[tid].events
 (* ---- the projection of the spec's NEXT state, in the shape harness/onion.py logs it ---- *)
 PCirc(n) == {[cid |-> c, goal |-> circ'[n][c].goal, hops |-> HopPeers(circ'[n][c]), unv |-> circ'[n][c].unv.peer,
               via |-> FirstHopAddr(circ'[n][c]),      \* the address cells of this circuit are sent to / accepted from
+              act |-> circ'[n][c].act,                 \* last activity (what the inactivity sweep goes by)
               closing |-> circ'[n][c].closing, early |-> circ'[n][c].early, ctype |-> circ'[n][c].ctype,
               hs |-> circ'[n][c].hs # NoKey] : c \in DOMAIN circ'[n]}
 PRelay(n) == {[cid |-> c, to |-> relay'[n][c].to, next |-> relay'[n][c].next, dir |-> relay'[n][c].dir,
